@@ -227,3 +227,16 @@ def ev_repr(e):
     """all attributes of an event (repr() of the event classes omits tags, version, style, flow_style)"""
     d = {k: v for k, v in vars(e).items() if k not in ('start_mark', 'end_mark') and v is not None}
     return '%s(%s)' % (type(e).__name__[:-5], ', '.join('%s=%r' % kv for kv in sorted(d.items())))
+
+
+def run_tlc_many(jobs, parallel=4, workers=4, heap='3g'):
+    """jobs: list of (name, kwargs for harness.tlc.run); runs them concurrently (the JVM start and the small searches
+    dominate); -> {name: TLCResult}"""
+    from concurrent.futures import ThreadPoolExecutor
+    from .. import tlc
+
+    def one(job):
+        name, kw = job
+        return name, tlc.run(workers=workers, heap=heap, **kw)
+    with ThreadPoolExecutor(max_workers=parallel) as ex:
+        return dict(ex.map(one, jobs))
